@@ -36,6 +36,16 @@ pub struct ConnectionKey {
     pub is_client: bool,
 }
 
+/// Tracker entries one connection can occupy: each direction is keyed separately and, because
+/// the role of a segment without SYN is inferred from its ports, a direction can be filed under
+/// both roles.
+pub const TRACKER_ENTRIES_PER_CONNECTION: usize = 4;
+
+/// Capacity of a connection tracker that holds `max_connections` connections.
+pub fn tracker_capacity(max_connections: usize) -> usize {
+    max_connections.saturating_mul(TRACKER_ENTRIES_PER_CONNECTION)
+}
+
 /// TCP timestamp information for a single packet
 #[derive(Debug, Clone)]
 pub struct TcpTimestamp {
